@@ -51,7 +51,7 @@ PROPS = {
     "C01": rt(700, 12000, ["serve-with-params", "serve-user"],
         "random route tables (1-12 routes, shared prefixes, sibling parameter branches, '-' names, interceptors, regexps) after Handle/Remove/Clean histories; "
         "6-30 probes per table (instantiated patterns, mutated paths, raw bytes); non-trivial = a probe that captured parameters or reached a user handler",
-        props=["TreeMatch", "C01text", "C02order", "C01names", "C10tokens", "C03router"],
+        props=["TreeMatch", "C01text", "C02order", "C01names", "C10tokens", "C03router"], extra_runs=[("C13", "C01g", 0.3)],
         level_text="Over EVERY history of Handle/Remove/Clean/Use and every request: C01_dispatch_text(_strong) - the reported node's pattern is the concatenation of the labels on the way down and the request path is the same chain with every label replaced by what it consumed (literal text byte for byte; a value its constraint accepts followed by the label's literal suffix) - from C01_pat_reachable (a child's pattern = parent's pattern ++ label, proved preserved through the CPS add_segment/split, remove, clean, use), C01_labels_reachable (every label is literal text or one {..} token + suffix), C01_idx_lit_reachable (the index jump never lands on a capturing child) and C01_match_children_sound_partial / C01_seg_match_sound. C01_404_exact_params / C01_404_no_new_params: a 404 reports no parameter it did not start with. *_refuted theorems show each side condition is necessary on arbitrary (unreachable) trees.",
         level_note="C01_dispatch_text_wf_partial: the full statement with NO side condition for every history whose registered patterns pass the decidable check hist_wf (every '{'-piece of the pattern contains no second '{'); C01_tokens_imply_pat_wf / C01_dispatch_text_tokens: every pattern the independent tokenizer accepts (the property's well-formed patterns) passes it, so the theorem covers the property's whole quantifier, through C01_names_fresh_reachable_partial (the abandoned child's undo is exact because parameter names along a chain are distinct) and C01_idx_lit_reachable. C01_names_fresh_refuted / C01_dispatch_text_unconditional_refuted: with a '{' inside a token ('{a{b}c/') the library cuts the token in two and the statement is false - outside the property's quantifier. The token-level oracle (independent tokenizer, keys exactly the capturing ones) judges the implementation on every probe.",
         partial=[]),
